@@ -21,17 +21,22 @@ RULE = ('Evaluation = one call of the real plots.diagnostic(chunk, upto, show_ce
         'layers, more than 10 slices, more than 10 ceilometers, MSA set (incl. cropped type>=2 hits that leave gaps '
         'in the row labels), generated scenes; all four upto levels x show_ceilos x reference-METAR arguments x '
         'save formats. Non-trivial = the chunk has >= 1 hit; distinct = hash of (rows, parameters, arguments).')
-ASSUMPTIONS = ['Agg backend; style "base" only (no LaTeX installation in the sandbox, so the latex/metsymb styles are unreachable)',
+ASSUMPTIONS = ['non-interactive backends only (Agg, svg, pdf - one per worker process); style "base" only (no LaTeX installation in the sandbox, so the latex/metsymb styles are unreachable)',
                'reference-METAR strings restricted to characters matplotlib mathtext renders literally']
 UPTOS = ['raw_data', 'slices', 'groups', 'layers']
 REQUIRED = ['upto:' + u for u in UPTOS] + ['show_ceilos_gt10_ceilos', 'gt8_layers', 'gt10_slices', 'vv_hits', 'vv_raw_noceilos',
-            'no_hits', 'single_hit', 'zero_okta_layer', 'two_formats', 'msa_with_dropped_rows', 'ref_metar', 'default_format']
+            'no_hits', 'single_hit', 'zero_okta_layer', 'two_formats', 'msa_with_dropped_rows', 'ref_metar', 'default_format', 'dotted_stem', 'backend:agg', 'backend:svg', 'backend:pdf']
 SIZES = {'quick': 60, 'thorough': 1200}     # chunks; ~4 plots each
 FAMS = ['generic', 'many_ceilos', 'many_layers', 'many_slices', 'vv', 'no_hits', 'single_hit', 'zero_okta', 'msa_drop', 'generic']
 
 
 def plan(tier, seed):
     return [{'fam': FAMS[i % len(FAMS)], 's': seed, 'i': i} for i in range(SIZES[tier])]
+
+
+def SHARD_ENV(j, shard):
+    # the non-interactive backends available offline; rcParams['backend'] is part of the compared state
+    return {'MPLBACKEND': ['Agg', 'svg', 'pdf', 'Agg'][j % 4]}
 
 
 def build(desc):
@@ -99,6 +104,7 @@ def check(desc):
         res['tags'] = ['crashed:' + type(e).__name__]
         return res
     fam = desc['fam']
+    tags.add('backend:' + str(matplotlib.get_backend()).lower())
     d = ch.data
     if len(ch.ceilos) > 10:
         tags.add('gt10_ceilos')
@@ -133,7 +139,15 @@ def check(desc):
             warnings.simplefilter('ignore')
             for n, (upto, show_ceilos) in enumerate(order):
                 fmts = [None, 'png', ['png'], ['png', 'pdf'], ['pdf']][int(rng.integers(5))] if n % 2 == 0 else 'skip'
-                stem = os.path.join(outd, 'plot_%d_%d' % (desc['i'], n)) if fmts != 'skip' else None
+                sname = ['plot_%d_%d', 'LSGG_2024.06.01_12.30_%d_%d', 'run_v1.2_%d_%d', 'plot_%d_%d'][(desc['i'] + n) % 4] % (desc['i'], n)
+                stem = os.path.join(outd, sname) if fmts != 'skip' else None
+                if stem is not None and '.' in sname:
+                    tags.add('dotted_stem')
+                    # an unrelated file that a wrongly derived name would overwrite
+                    with open(os.path.join(outd, sname.rsplit('.', 1)[0] + '.png'), 'w') as fh:
+                        fh.write('precious')
+                    with open(os.path.join(outd, sname.rsplit('.', 1)[0] + '.pdf'), 'w') as fh:
+                        fh.write('precious')
                 ref = [None, 'FEW010 BKN040', 'NCD', 'OVC001 (obs)'][int(rng.integers(4))]
                 origin = [None, 'Human obs.', 'METAR LSGG'][int(rng.integers(3))]
                 kw = dict(upto=upto, show_ceilos=show_ceilos, ref_metar=ref, ref_metar_origin=origin, show=False,
@@ -143,6 +157,7 @@ def check(desc):
                 msg0 = [ch.metar_msg(w) for w in obs.WHICH]
                 figs0 = plt.get_fignums()
                 out0, cwdl0 = listing(outd), listing(work)
+                pre = {f: open(os.path.join(outd, f), 'rb').read() for f in out0}
                 exc = None
                 try:
                     diagnostic(ch, **kw)
@@ -184,6 +199,9 @@ def check(desc):
                         tags.add('two_formats')
                 if exc is None and new != exp:
                     oracles.V(viol, 'C20', 'files written != exactly the requested ones', written=new, expected=exp, **wit)
+                changed = [f for f in out0 if not os.path.exists(os.path.join(outd, f)) or open(os.path.join(outd, f), 'rb').read() != pre[f]]
+                if changed:
+                    oracles.V(viol, 'C20', 'an existing, unrelated file was overwritten / removed', files=changed[:4], **wit)
                 if listing(work) != cwdl0:
                     oracles.V(viol, 'C20', 'files written outside the requested location (working directory)',
                               files=listing(work)[:5], **wit)
